@@ -173,7 +173,11 @@ def part_ii(ck, cases, tier):
     for n in sel:
         ops.append("query Op%d($c: Color, $w: Date) {\n  node { __typename id ... on A { a } }\n  a(color: $c, when: $w) { id a old born color dir }\n}\n" % n)
         structs.append(render_source(cases[n], n, STYLES[n % 4], SPACINGS[n % 3], n % 3, 1))
-    vlib.write_if_changed(os.path.join(crate, "q", "My Query.graphql"), "\n".join(ops))
+    qrel = cases[sel[0]]["options"]["query_path"]        # the written value (contains a blank and a backslash)
+    vlib.write_if_changed(os.path.join(crate, qrel), "\n".join(ops))
+    # a decoy where a path "normalisation" of the written value would look
+    os.makedirs(os.path.dirname(os.path.join(crate, qrel.replace("\\", "/"))), exist_ok=True)
+    vlib.write_if_changed(os.path.join(crate, qrel.replace("\\", "/")), "query Decoy { node { __typename } }\n")
     vlib.write_if_changed(os.path.join(crate, "src", "main.rs"), MAIN % "\n\n".join(structs))
     vlib.write_if_changed(os.path.join(crate, "Cargo.toml"),
                           '[package]\nname = "c18_crate0"\nversion = "0.0.0"\nedition = "2018"\npublish = false\n\n'
